@@ -35,7 +35,7 @@ typedef struct {
     char *toks[MAXTOK];
     ABT_thread h;
     pthread_t pth;
-    volatile int created, entries, finished, badarg;
+    volatile int created, entries, finished, badarg, revives;
     void *arg_given;
 } unit_t;
 static unit_t g_u[MAXU];
@@ -102,6 +102,42 @@ static void create_unit(int i)
     vh_note(UEV_OPE, 'C', i, (uintptr_t)(u->named == 'N' ? (void *)u->h : NULL));
 }
 
+static void wait_blocked(unit_t *me, int i);
+static void self_yield(unit_t *me);
+/* pop unit i from its pool (it must be READY there); other units popped on the way are pushed back */
+static void take_unit(unit_t *me, int i)
+{
+    ABT_pool pool = pool_handle(g_u[i].pool);
+    int guard = 0;
+    while (1) {
+        ABT_thread th = ABT_THREAD_NULL;
+        if (ABT_pool_pop_thread(pool, &th) != ABT_SUCCESS)
+            VH_DIE("pop_thread");
+        if (th == g_u[i].h)
+            return;
+        if (th != ABT_THREAD_NULL) {
+            /* not ours: put it back and retry at once (yielding here can livelock two takers) */
+            ABT_pool_push_thread(pool, th);
+            if (++guard > 2000000)
+                VH_DIE("take_unit: unit %d never showed up in its pool", i);
+            continue;
+        }
+        if (++guard > 2000000)
+            VH_DIE("take_unit: unit %d never showed up in its pool", i);
+        self_yield(me);
+    }
+}
+static void wait_blocked(unit_t *me, int i)
+{
+    ABT_thread_state st;
+    while (1) {
+        ABT_thread_get_state(g_u[i].h, &st);
+        if (st == ABT_THREAD_STATE_BLOCKED)
+            break;
+        self_yield(me);
+    }
+}
+
 static void self_yield(unit_t *me)
 {
     if (me->kind == 'U' || me->kind == 'M')
@@ -146,13 +182,7 @@ static void run_ops(unit_t *me)
                 vh_note(UEV_OPE, 'S', me->idx, ret);
                 break;
             case 'R': {
-                ABT_thread_state st;
-                while (1) {
-                    ABT_thread_get_state(g_u[i].h, &st);
-                    if (st == ABT_THREAD_STATE_BLOCKED)
-                        break;
-                    self_yield(me);
-                }
+                wait_blocked(me, i);
                 vh_note(UEV_OPB, 'R', i, 0);
                 ret = ABT_thread_resume(g_u[i].h);
                 vh_note(UEV_OPE, 'R', i, ret);
@@ -187,10 +217,68 @@ static void run_ops(unit_t *me)
                 break;
             }
             case 'y':
+                take_unit(me, i);
                 vh_note(UEV_OPB, 'y', i, 0);
                 ret = ABT_self_yield_to(g_u[i].h);
                 vh_note(UEV_OPE, 'y', i, ret);
                 break;
+            case 's':
+                take_unit(me, i);
+                vh_note(UEV_OPB, 's', i, 0);
+                ret = ABT_self_suspend_to(g_u[i].h);
+                vh_note(UEV_OPE, 's', i, ret);
+                break;
+            case 'r':
+                wait_blocked(me, i);
+                vh_note(UEV_OPB, 'r', i, 0);
+                ret = ABT_self_resume_yield_to(g_u[i].h);
+                vh_note(UEV_OPE, 'r', i, ret);
+                break;
+            case 'u':
+                wait_blocked(me, i);
+                vh_note(UEV_OPB, 'u', i, 0);
+                ret = ABT_self_resume_suspend_to(g_u[i].h);
+                vh_note(UEV_OPE, 'u', i, ret);
+                break;
+            case 'e':
+                take_unit(me, i);
+                vh_note(UEV_FINISH, me->idx, 2, 0);
+                me->finished++;
+                ABT_self_exit_to(g_u[i].h);
+                VH_DIE("exit_to returned");
+                break;
+            case 'x':
+                wait_blocked(me, i);
+                vh_note(UEV_FINISH, me->idx, 3, 0);
+                me->finished++;
+                ABT_self_resume_exit_to(g_u[i].h);
+                VH_DIE("resume_exit_to returned");
+                break;
+            case 'c': {
+                unit_t *u = &g_u[i];
+                u->arg_given = u;
+                vh_note(UEV_OPB, 'c', i, 0);
+                u->created = 1;
+                ret = ABT_thread_create_to(pool_handle(u->pool), unit_fn, u, ABT_THREAD_ATTR_NULL,
+                                           u->named == 'N' ? &u->h : NULL);
+                vh_note(UEV_OPE, 'c', i, (uintptr_t)(u->named == 'N' ? (void *)u->h : NULL));
+                break;
+            }
+            case 'v':
+                vh_note(UEV_OPB, 'v', i, 0);
+                g_u[i].finished = 0;
+                g_u[i].revives++;
+                ret = ABT_thread_revive_to(pool_handle(g_u[i].pool), unit_fn, &g_u[i], &g_u[i].h);
+                vh_note(UEV_OPE, 'v', i, ret);
+                break;
+            case 'g': { /* record the caller's own state as seen through the API */
+                ABT_thread self;
+                ABT_thread_state st;
+                ABT_self_get_thread(&self);
+                ABT_thread_get_state(self, &st);
+                vh_note(UEV_OPE, 'g', me->idx, st);
+                break;
+            }
             case 't':
                 vh_note(UEV_OPB, 't', i, 0);
                 ret = ABT_thread_yield_to(g_u[i].h);
@@ -206,6 +294,7 @@ static void run_ops(unit_t *me)
             case 'V':
                 vh_note(UEV_OPB, 'V', i, 0);
                 g_u[i].finished = 0;
+                g_u[i].revives++;
                 if (g_u[i].kind == 'U')
                     ret = ABT_thread_revive(pool_handle(g_u[i].pool), unit_fn, &g_u[i], &g_u[i].h);
                 else
@@ -295,8 +384,8 @@ static void dump_history(const char *status)
     vh_dump(f, status);
     int i;
     for (i = 0; i < g_nu; i++)
-        fprintf(f, "UNITSTAT %d kind=%c named=%c pool=%d created=%d entries=%d finished=%d badarg=%d\n", i, g_u[i].kind,
-                g_u[i].named, g_u[i].pool, g_u[i].created, g_u[i].entries, g_u[i].finished, g_u[i].badarg);
+        fprintf(f, "UNITSTAT %d kind=%c named=%c pool=%d created=%d entries=%d finished=%d badarg=%d revives=%d\n", i, g_u[i].kind,
+                g_u[i].named, g_u[i].pool, g_u[i].created, g_u[i].entries, g_u[i].finished, g_u[i].badarg, g_u[i].revives);
     fclose(f);
 }
 
